@@ -164,6 +164,19 @@ def build_cases(ctx, histories, grid, d):
         for lo in range(0, top, 40):
             add([{"obj": [kind, rnd.choice(["d1", "pool"])], "input": inp, "depth": 0 if kind == "fast" else rnd.choice([0, 1, 3]), "dstLen": dl, "spare": 0}
                  for dl in range(lo, min(lo + 40, top)) for kind in ("fast", "hc")])
+    # (4a') literal runs whose length code ends exactly on a 255 boundary (15 + 255 k): as the final run of a block and before a
+    # match, and the destination ending inside the length bytes of a long literal run
+    for k in (1, 2, 3, 4):
+        for dlt in (-1, 0, 1):
+            n = 15 + 255 * k + dlt
+            lit = [((i * 131 + 7 * k) ^ (i >> 3)) & 255 for i in range(n)]
+            add([{"obj": [kind, rnd.choice(["l1", "pool"])], "input": {"family": "bytes", "len": len(x), "seed": 0, "bytes": x},
+                  "depth": 0 if kind == "fast" else rnd.choice([0, 1, 3]), "dstLen": -1, "spare": 0}
+                 for x in (lit, lit + [9] * 40 + lit[:20], [9] * 40 + lit) for kind in ("fast", "hc")])
+    litrun = [((i * 197 + 11) ^ (i >> 2)) & 255 for i in range(600)] + [5] * 300
+    for lo in range(0, 80, 40):
+        add([{"obj": [kind, "d2"], "input": {"family": "bytes", "len": len(litrun), "seed": 0, "bytes": litrun}, "depth": 0 if kind == "fast" else 1,
+              "dstLen": dl, "spare": 0} for dl in range(lo, lo + 40) for kind in ("fast", "hc")])
     # (4b) incompressible sources beyond 1 MiB with a destination of exactly the code's CompressBlockBound, and every
     # length where the code's bound is below BoundLemma!WorstCaseSize (found on a grid up to 2^30; executed up to 64 MiB)
     for n in ([1 << 20, (3 << 20) + 5] if q else [1 << 20, (3 << 20) + 5, 8 << 20, (16 << 20) + 1, 48 << 20]) + ctx.extra.get("bound_grid_short", [])[:3]:
